@@ -260,7 +260,7 @@ class VerifyAttrs(object):
                 )
             try:
                 attrs["rank"] = int(attrs["rank"])
-            except ValueError:
+            except (ValueError, OverflowError):
                 raise RuntimeError(
                     "'rank' attribute must have an integer value, not '{}'"
                     .format(attrs["rank"])
